@@ -153,6 +153,8 @@ PROPS = {
              "shards": {"quick": 12, "thorough": 14}},
             {"name": "c09-rand", "pkg": COMPOSITE, "tests": ["TestVerifC09Random"],
              "checks": {"quick": 900, "thorough": 40000}, "shards": {"quick": 3, "thorough": 12}},
+            {"name": "c09-restart", "pkg": COMPOSITE, "tests": ["TestVerifC09RestartRevisionCache"],
+             "checks": {"quick": 24, "thorough": 960}, "shards": {"quick": 6, "thorough": 12}, "timeout": {"quick": 600, "thorough": 3400}},
         ],
     },
     "C10": {
